@@ -7,6 +7,7 @@ pub mod c08;
 pub mod c09;
 pub mod c10;
 pub mod c11;
+pub mod c12;
 pub mod c13;
 pub mod c14;
 pub mod c18;
@@ -28,6 +29,7 @@ pub fn all() -> Vec<Box<dyn Monitor>> {
         Box::new(c09::C09),
         Box::new(c10::Names(c10::NW::C10)),
         Box::new(c11::C11),
+        Box::new(c12::C12),
         Box::new(c13::C13),
         Box::new(c14::Ser(c14::SW::C14)),
         Box::new(c10::Names(c10::NW::C15)),
